@@ -7,6 +7,7 @@ from .common import where, check_arm_purity, spec, call_sites
 from . import constructions as K
 from . import guardrules as R
 from . import flow as F
+from . import spec as SP
 
 EXPLANATION = (
     "Decides blsful's own glue around the secret-sharing dependency: split_with_rng hands (threshold, limit, the key's scalar, the "
@@ -39,7 +40,13 @@ def run(ctx):
         ctx.ob("E6.split", "split_with_rng->split_secret", ok, "split_secret receives (threshold, limit, self.0, rng) unmodified: %s" % shown, where=where(f))
         # every produced share is wrapped 1:1
         F.check_no_dropping_adapters(ctx, "E7.adapters", P, ["SecretKey<C>::split_with_rng"])
-        ret_ok = any(s.op == "call" and B.cname(s) == "Iterator::collect" for s in subterms(ev.ret))
+        ret_ok = False
+        for b_ in R.ok_blocks(f):
+            v_ = ev.exit_state[b_].get(0)
+            if v_.op == "agg" and v_.a[1]:
+                x, steps = F.image_source(P, f, ev, v_.a[1][0])
+                # source: the Ok payload of split_secret(..)?
+                ret_ok = x is not None and any(s_.op == "call" and B.cname(s_) == "vsss_rs::split_secret" for s_ in subterms(x)) and not any(s_.op == "loop" for s_ in subterms(x))
         ctx.ob("E6.split", "split_with_rng/result", ret_ok, "result is the collected 1:1 image of the shares returned by split_secret", where=where(f))
     f = ctx.need_fn("E6.split", "SecretKey<C>::split")
     if f is not None:
@@ -65,13 +72,10 @@ def run(ctx):
         if sites:
             t = strip_sites(sites[0].args[0])
             shown = show(t, 5)
-            x = t
-            while x.op in ("ref", "deref") or (x.op == "call" and B.cname(x) in ("Deref::deref", "Vec::<T, A>::as_slice", "Iterator::collect", "AsRef::as_ref")):
-                x = x.a[0] if x.op in ("ref", "deref") else x.a[1][0]
-            if x.op == "call" and B.cname(x) == "Iterator::map":
-                ok = R.covers_all(x.a[1][0], "shares") == "all"
-            elif x.op == "param" and x.a[1] == "shares":
-                ok = True
+            x, steps = F.image_source(P, f, ev, sites[0].args[0])
+            ok = x is not None and x.op == "param" and x.a[1] == "shares"
+            if x is None:
+                shown = "%s - %s" % (shown, steps)
         ctx.ob("E6.combine", fk, ok, "%s receives a 1:1 image of the whole `shares` list: %s" % (sink, shown), where=where(f))
         allow = {}
         if fk == "Signature<C>::from_shares":
@@ -92,39 +96,47 @@ def run(ctx):
     f = P.fns.get(fk)
     if f is not None:
         ev = evaluate(f)
-        oks = R.ok_blocks(f)
+        oks = R.ok_exits(P, f, ev)
         good = True
         detail = ""
         idiom = None
-        for b in oks:
-            lits = G.path_literals(ev, b, P)
+        for b, lits in oks:
             hit = False
             for atom, pol in lits:
-                if pol and atom[0] == "atom" and atom[1] == "term" and atom[2].op == "call" and B.cname(atom[2]) == "Iterator::all":
-                    src = atom[2].a[1][0]
-                    clo = B.peel(atom[2].a[1][1])
-                    cov = R.covers_all(src, "shares")
-                    sp = B.peel(src)
-                    if sp.op == "call" and B.cname(sp) == "slice::<impl [T]>::windows" and B._const_int(sp.a[1][1]) == 2 and R.covers_all(sp.a[1][0], "shares") == "all" and clo.op == "agg" and clo.a[0][0] == "closure":
-                        g = P.fns.get(clo.a[0][1])
-                        if g is not None:
-                            r = strip_sites(evaluate(g).ret)
-                            if r.op == "call" and B.cname(r).endswith("::same_scheme"):
-                                idx = sorted(B._const_int(z.a[1]) for z in [B.peel(q) for q in r.a[1]] if z.op == "index" and B.peel(z.a[0]).op == "param")
-                                if idx == [0, 1]:
-                                    hit = True
-                                    idiom = "windows"
-                                    detail = "all(windows(shares, 2), |w| same_scheme(w[0], w[1]))"
-                    if cov in ("all", "tail1") and clo.op == "agg" and clo.a[0][0] == "closure":
-                        g = P.fns.get(clo.a[0][1])
-                        if g is not None:
-                            r = strip_sites(evaluate(g).ret)
-                            if r.op == "call" and B.cname(r).endswith("::same_scheme"):
-                                xs = [B.peel(z) for z in r.a[1]]
-                                has0 = any(z.op == "index" and B._const_int(z.a[1]) == 0 for z in xs)
-                                has_elem = any(z.op == "param" for z in xs)
-                                hit = has0 and has_elem
-                                detail = "all(%s, |s| %s)" % (cov, show(r, 4))
+                # universally quantified guard: all(src, |x| P(x)) is true, or any(src, |x| !P(x)) is false
+                if not (atom[0] == "atom" and atom[1] == "term" and atom[2].op == "call"):
+                    continue
+                qn = B.cname(atom[2])
+                if not ((qn == "Iterator::all" and pol) or (qn == "Iterator::any" and not pol)):
+                    continue
+                src = atom[2].a[1][0]
+                clo = B.peel(atom[2].a[1][1])
+                if not (clo.op == "agg" and clo.a[0][0] == "closure"):
+                    continue
+                g = P.fns.get(clo.a[0][1])
+                if g is None:
+                    continue
+                fm = G.formula(evaluate(g).ret, P)
+                if qn == "Iterator::any":
+                    fm = G.f_not(fm)
+                if not (fm[0] == "atom" and fm[1] == "term" and fm[2].op == "call" and B.cname(fm[2]).endswith("::same_scheme")):
+                    continue
+                r = fm[2]
+                cov = R.covers_all(src, "shares")
+                sp = B.peel(src)
+                if sp.op == "call" and B.cname(sp) == "slice::<impl [T]>::windows" and B._const_int(sp.a[1][1]) == 2 and R.covers_all(sp.a[1][0], "shares") == "all":
+                    idx = sorted(B._const_int(z.a[1]) for z in [B.peel(q) for q in r.a[1]] if z.op == "index" and B.peel(z.a[0]).op == "param")
+                    if idx == [0, 1]:
+                        hit = True
+                        idiom = "windows"
+                        detail = "%s(windows(shares, 2), |w| %ssame_scheme(w[0], w[1]))" % (qn.split("::")[-1], "" if qn.endswith("all") else "!")
+                if cov in ("all", "tail1"):
+                    xs = [B.peel(z) for z in r.a[1]]
+                    has0 = any(z.op == "index" and B._const_int(z.a[1]) == 0 for z in xs)
+                    has_elem = any(z.op == "param" for z in xs)
+                    if has0 and has_elem:
+                        hit = True
+                        detail = "%s(%s, |s| %s)" % (qn.split("::")[-1], cov, show(r, 4))
             good = good and hit
         ctx.ob("E4.scheme", fk, bool(oks) and good, "every success exit requires that each share has the scheme of shares[0]: %s" % detail, where=where(f))
         errs = R.err_blocks(f)
@@ -134,8 +146,8 @@ def run(ctx):
                 if s["k"] == "assign" and "agg" in s["rv"] and s["rv"]["agg"].get("adt") == "BlsError":
                     kinds.append(s["rv"]["agg"]["variant"])
         ctx.ob("E4.scheme", fk + "/error", "InvalidSignatureScheme" in kinds, "mixed schemes are reported as InvalidSignatureScheme (error kinds built: %s)" % kinds, where=where(f))
-        n, _ = check_arm_purity(ctx, "E2-A", P, [f])
-        ctx.floor("E2-A", "result-variant switch in from_shares", n, 1)
+        check_arm_purity(ctx, "E2-A", P, [f])
+        SP.check_variant_preserved(ctx, "E2.variant", P, f, "Signature")
     # b. identifier and value of produced shares
     for fk, val_pred, desc in (
         ("BlsSignatureCore::core_partial_sign", lambda t: any(s.op == "call" and B.cname(s) == "BlsSignatureCore::core_sign" for s in subterms(t)), "to_bytes(core_sign(as_field_element(sks), msg, dst))"),
@@ -162,8 +174,9 @@ def run(ctx):
     K.check_core_siblings(ctx, P, traits=("BlsSignatureBasic", "BlsSignaturePop"), methods_sign=("partial_sign", "sign"), methods_verify=("partial_verify", "verify", "multi_sig_verify"))
     f = ctx.need_fn("E2-A", "SecretKeyShare<C>::sign")
     if f is not None:
-        n, _ = check_arm_purity(ctx, "E2-A", P, [f])
-        ctx.floor("E2-A", "dispatch in SecretKeyShare::sign", n, 1)
+        check_arm_purity(ctx, "E2-A", P, [f])
+        n = SP.check_trait_by_scheme(ctx, "E2.dispatch", P, f, ("partial_sign", "sign", "core_partial_sign"))
+        ctx.floor("E2.dispatch", "schemes of SecretKeyShare::sign reaching their signer", n, 2)
     # core_signature_share_verify: identifiers compared, both payloads checked
     f = ctx.need_fn("E4.sharever", "BlsSignatureCore::core_signature_share_verify")
     if f is not None:
